@@ -44,8 +44,9 @@ func safeMarshal(m picobuf.Message) (b []byte, panicked string) {
 		}
 	}()
 	marshalCalls++
-	if marshalCalls%2 == 0 {
-		// every second Marshal comes right after one that was aborted by a panic in user code
+	if marshalCalls%3 == 0 {
+		// every third Marshal comes right after one that was aborted by a panic in user code (a period of three: the suites
+		// alternate large and small messages, and neither kind may always be the one that follows the aborted call)
 		func() {
 			defer func() { _ = recover() }()
 			_, _ = picobuf.Marshal(abortingMessage{})
@@ -387,6 +388,31 @@ func init() {
 			return fmt.Errorf("no usable types")
 		}
 		r := newRng(seed)
+		// exact sizes: for the first type with a plain string/bytes field, results of every length in windows around 128, 256, 512,
+		// 1024, 2048 and 4096 bytes (what a scratch buffer, a pool class or a size-class of the allocator would hold exactly),
+		// each followed by a small message - a call that ends exactly at a capacity must leave nothing behind for the next one
+		swept := 0
+		for _, ti := range types {
+			if swept >= 5 {
+				break // five types: whether a call can end exactly at a capacity depends on what the type writes after the string
+			}
+			hv := u.hugeValue(ti, 1, false)
+			if hv == nil {
+				continue
+			}
+			swept++
+			small := u.hugeValue(ti, 3, false)
+			for n := 100; n <= 300; n++ { // every length from 100 to 300 while the process is young (first scratch buffers)
+				u.msgCase(out, ti, u.hugeValue(ti, n, false), buildOpts{})
+				u.msgCase(out, ti, small, buildOpts{})
+			}
+			for _, centre := range []int{512, 1024, 2048, 4096} {
+				for n := centre - 12; n <= centre+3; n++ {
+					u.msgCase(out, ti, u.hugeValue(ti, n, false), buildOpts{})
+					u.msgCase(out, ti, small, buildOpts{})
+				}
+			}
+		}
 		for i := 0; i < n; i++ {
 			ti := types[i%len(types)]
 			cr := r.fork()
